@@ -52,6 +52,9 @@ def run_real_session(scenario, timeout_s=60.0, client_fns=None):
     os.makedirs(workdir, exist_ok=True)
     fd, out_path = tempfile.mkstemp(suffix='.json', dir=workdir)
     os.close(fd)
+    from vf.sim.session import STALE_LOG
+    with open(out_path, 'w') as f:           # an earlier, longer log sits at the output path ("File will be overwritten")
+        f.write(STALE_LOG)
     res = RealResult()
     res.client_logs = {s: [] for s in range(4)}
     res.client_exc, res.client_state = {}, {s: {} for s in range(4)}
